@@ -118,6 +118,41 @@ def r02a(ctx: Context) -> None:
         raise AnalysisError(f"only {markers} ParserHelper marker characters recognised (5 confirmed)")
 
 
+def container_registrations(prog: Program) -> List[Tuple[str, Optional[ast.AST], Optional[ast.AST]]]:
+    """(container class name, start handler expression, end handler expression) for every registration the
+    transformer's constructor makes - written out call by call, or driven by a local table of tuples."""
+    init = prog.method(T2M, "__init__")
+    rows: List[Tuple[str, Optional[ast.AST], Optional[ast.AST]]] = []
+
+    def table_rows(call: ast.Call) -> Optional[List[List[ast.AST]]]:
+        names = [a.id for a in call.args if isinstance(a, ast.Name)]
+        if len(names) != len(call.args) or not names:
+            return None
+        for loop in [n for n in walk_local(init.node) if isinstance(n, ast.For) and any(sub is call for sub in ast.walk(n))]:
+            if isinstance(loop.target, ast.Tuple) and [e.id for e in loop.target.elts if isinstance(e, ast.Name)] == [e.id for e in loop.target.elts if isinstance(e, ast.Name)]:
+                positions = {e.id: i for i, e in enumerate(loop.target.elts) if isinstance(e, ast.Name)}
+                if not all(n in positions for n in names):
+                    continue
+                table = loop.iter
+                if isinstance(table, ast.Name):
+                    values = [n.value for n in walk_local(init.node) if isinstance(n, (ast.Assign, ast.AnnAssign)) and getattr(n, "value", None) is not None
+                              and any(isinstance(t, ast.Name) and t.id == table.id for t in (n.targets if isinstance(n, ast.Assign) else [n.target]))]
+                    table = values[0] if len(values) == 1 else None
+                if isinstance(table, (ast.List, ast.Tuple)) and all(isinstance(r, ast.Tuple) for r in table.elts):
+                    return [[r.elts[positions[n]] for n in names] for r in table.elts]  # type: ignore[attr-defined]
+        return None
+
+    for node in walk_local(init.node):
+        if isinstance(node, ast.Call) and isinstance(node.func, ast.Attribute) and node.func.attr == "register_container_handlers" and node.args:
+            expanded = table_rows(node) or [list(node.args)]
+            for arguments in expanded:
+                name = (dotted(arguments[0]) or "").split(".")[-1]
+                start = arguments[1] if len(arguments) > 1 else None
+                end = arguments[2] if len(arguments) > 2 and not (isinstance(arguments[2], ast.Constant) and arguments[2].value is None) else None
+                rows.append((name, start, end))
+    return rows
+
+
 def r02b(ctx: Context) -> None:
     prog = ctx.prog
     rule = ctx.rule("R02b", "every token class is registered and has the handlers its shape needs", 26)
@@ -133,10 +168,8 @@ def r02b(ctx: Context) -> None:
     rule.ok("token type names", f"{len(consts)} constants, pairwise distinct")
     init = prog.method(T2M, "__init__")
     container_regs: Dict[str, Tuple[bool, bool]] = {}
-    for node in walk_local(init.node):
-        if isinstance(node, ast.Call) and isinstance(node.func, ast.Attribute) and node.func.attr == "register_container_handlers":
-            name = (dotted(node.args[0]) or "").split(".")[-1]
-            container_regs[name] = (len(node.args) > 1, len(node.args) > 2)
+    for name, start, end in container_registrations(prog):
+        container_regs[name] = (start is not None, end is not None)
     ends_by_container = {"NewListItemMarkdownToken": False}
     for token in classes:
         key = token.cls.name
@@ -258,14 +291,12 @@ def handler_roles(prog: Program) -> Dict[str, FuncInfo]:
         if md and md[2] is not None:
             roles[f"{token.cls.name}:end"] = md[2]
     init = prog.method(T2M, "__init__")
-    for node in walk_local(init.node):
-        if isinstance(node, ast.Call) and isinstance(node.func, ast.Attribute) and node.func.attr == "register_container_handlers":
-            name = (dotted(node.args[0]) or "").split(".")[-1]
-            for index, role in ((1, "start"), (2, "end")):
-                if len(node.args) > index:
-                    refs = prog._function_ref(init, node.args[index])
-                    if refs:
-                        roles[f"{name}:{role}"] = refs[0]
+    for name, start, end in container_registrations(prog):
+        for handler, role in ((start, "start"), (end, "end")):
+            if handler is not None:
+                refs = prog._function_ref(init, handler)
+                if refs:
+                    roles[f"{name}:{role}"] = refs[0]
     return roles
 
 
